@@ -110,6 +110,11 @@ type Task struct {
 
 // Config configures one run.
 type Config struct {
+	// Prio / Change select PCT scheduling (Burckhardt et al.): the runnable task
+	// with the highest priority runs; at the i-th scheduling step listed in
+	// Change the running task's priority drops below all others. Empty = tape.
+	Prio   []int
+	Change []int
 	Tape     []uint32
 	Faults   []Fault
 	MaxSteps int
@@ -142,6 +147,9 @@ type Sim struct {
 	FaultsFired map[string]int
 	Probes      map[string]int
 	faultUsed   []bool
+
+	pctPrio map[int]int
+	pctLow  int
 
 	StepCapped bool
 	Deadlocked bool
@@ -522,7 +530,20 @@ func (s *Sim) Run() {
 			return
 		}
 		idx := 0
-		if len(runnable) > 1 {
+		if len(s.cfg.Prio) > 0 {
+			for _, c := range s.cfg.Change {
+				if c == s.steps && s.last != nil {
+					s.pctLow--
+					s.setPrio(s.last.ID, s.pctLow)
+				}
+			}
+			best := -1 << 30
+			for i, t := range runnable {
+				if p := s.prio(t.ID); p > best {
+					best, idx = p, i
+				}
+			}
+		} else if len(runnable) > 1 {
 			if s.tapePos < len(s.cfg.Tape) {
 				idx = int(s.cfg.Tape[s.tapePos] % uint32(len(runnable)))
 			}
@@ -566,6 +587,23 @@ func (s *Sim) abortAll() {
 			t.state = stDone
 		}
 	}
+}
+
+func (s *Sim) prio(id int) int {
+	if p, ok := s.pctPrio[id]; ok {
+		return p
+	}
+	if id < len(s.cfg.Prio) {
+		return s.cfg.Prio[id]
+	}
+	return -id
+}
+
+func (s *Sim) setPrio(id, p int) {
+	if s.pctPrio == nil {
+		s.pctPrio = map[int]int{}
+	}
+	s.pctPrio[id] = p
 }
 
 // TapeUsed is how many tape entries were consumed.
